@@ -36,6 +36,7 @@ Fixpoint one_default (s : stmt) {struct s} : bool :=
   | SWhile _ b | SDoWhile b _ | SFor _ _ _ b | SForeach _ _ _ b => one_default b
   | SSwitch _ cl => (count_default cl <=? 1)%nat && one_default_clauses cl
   | STry b cs f => one_default b && one_default_catches cs && one_default f
+  | SIfInst _ _ t e => one_default t && one_default e
   | _ => true
   end
 with one_default_elifs (l : elifs) {struct l} : bool :=
@@ -56,6 +57,7 @@ Fixpoint clean_stmt (m : bool) (s : stmt) {struct s} : bool :=
   | SWhile _ b | SDoWhile b _ | SFor _ _ _ b | SForeach _ _ _ b => clean_stmt m b
   | SSwitch _ cl => clean_clauses m cl
   | STry b cs f => clean_stmt m b && clean_catches m cs && clean_stmt m f
+  | SIfInst _ _ t e => clean_stmt m t && clean_stmt m e
   | _ => true
   end
 with clean_elifs (m : bool) (l : elifs) {struct l} : bool :=
